@@ -9,7 +9,7 @@
 //        `trunc_after_items` items the file is truncated to `trunc_to` bytes
 //        -> id|len|lm_matches_fs(0/1)|items: comma separated D<len>:<ok 0/1> / E / N / LIMIT
 //   id|etag|size|mtime_secs|mtime_nanos|action   action in same, append, touch, replace, shrinkgrow
-//        -> id|etag1_hex|etag2_hex|panic_hex or -
+//        -> id|etag1_hex|etag2_hex|panic_hex or -|ino:len:mtime observed at the first open|the same at the second open
 //   id|nonregular  -> id|refused or accepted
 use futures_util::StreamExt;
 use http_serve::Entity;
@@ -95,7 +95,14 @@ async fn run_one(dir: &std::path::Path, line: &str) -> String {
             std::fs::OpenOptions::new().write(true).open(&p).unwrap().set_modified(t).unwrap();
             let p2 = p.clone();
             let act = action.to_string();
+            // what the file system really recorded (its timestamp granularity may be coarser than what was asked for)
+            fn ident(p: &std::path::Path) -> String {
+                use std::os::unix::fs::MetadataExt;
+                let m = std::fs::metadata(p).unwrap();
+                format!("{}:{}:{}.{:09}", m.ino(), m.len(), m.mtime(), m.mtime_nsec())
+            }
             let r = std::panic::catch_unwind(std::panic::AssertUnwindSafe(move || {
+                let i1 = ident(&p2);
                 let e1 = Crf::new(std::fs::File::open(&p2).unwrap(), http::HeaderMap::new()).unwrap().etag();
                 match act.as_str() {
                     "same" => {}
@@ -120,15 +127,18 @@ async fn run_one(dir: &std::path::Path, line: &str) -> String {
                     }
                     _ => panic!("bad action"),
                 }
+                let i2 = ident(&p2);
                 let e2 = Crf::new(std::fs::File::open(&p2).unwrap(), http::HeaderMap::new()).unwrap().etag();
-                (e1, e2)
+                (e1, e2, i1, i2)
             }));
             match r {
-                Ok((e1, e2)) => format!(
-                    "{}|{}|{}|-",
+                Ok((e1, e2, i1, i2)) => format!(
+                    "{}|{}|{}|-|{}|{}",
                     id,
                     e1.map(|v| hex(v.as_bytes())).unwrap_or("none".into()),
-                    e2.map(|v| hex(v.as_bytes())).unwrap_or("none".into())
+                    e2.map(|v| hex(v.as_bytes())).unwrap_or("none".into()),
+                    i1,
+                    i2
                 ),
                 Err(pn) => {
                     let msg = pn.downcast_ref::<String>().cloned().or_else(|| pn.downcast_ref::<&str>().map(|x| x.to_string())).unwrap_or("panic".into());
